@@ -19,7 +19,7 @@ for pid in ids:
         "level_claimed": {
             "category": "proof",
             "text": c["level_text"],
-            "design_ref": f"DESIGN.md §4 {pid}",
+            "design_ref": f"DESIGN.md §9.9 {pid}",
         },
         "level_note": c["level_note"],
         "technique": c.get("technique", "Lean 4 theorems about an executable model + differential correspondence with the Go code"),
